@@ -676,7 +676,7 @@ func init() {
 		oracles:      []Oracle{oracleCrash, oracleCoverageC01},
 		chunks:       map[string]int{"quick": 8, "thorough": 16},
 		nGenQuick:    24,
-		nGenThorough: 120,
+		nGenThorough: 60,
 		rawPos:       true,
 		prefixStep:   map[string]int{"quick": 9, "thorough": 2},
 		tokStep:      map[string]int{"quick": 11, "thorough": 3},
@@ -691,7 +691,7 @@ func init() {
 		kinds:        []core.QKind{core.QCompletion, core.QCompletionPrefill},
 		chunks:       map[string]int{"quick": 8, "thorough": 16},
 		nGenQuick:    16,
-		nGenThorough: 100,
+		nGenThorough: 40,
 		prefixStep:   map[string]int{"quick": 11, "thorough": 2},
 		tokStep:      map[string]int{"quick": 13, "thorough": 3},
 	})
@@ -720,7 +720,7 @@ func init() {
 		kinds:        []core.QKind{core.QSemTokens},
 		chunks:       map[string]int{"quick": 8, "thorough": 16},
 		nGenQuick:    24,
-		nGenThorough: 120,
+		nGenThorough: 60,
 		prefixStep:   map[string]int{"quick": 3, "thorough": 1},
 		tokStep:      map[string]int{"quick": 3, "thorough": 1},
 	}
@@ -737,7 +737,7 @@ func init() {
 		oracles:      []Oracle{oracleRanges},
 		chunks:       map[string]int{"quick": 8, "thorough": 16},
 		nGenQuick:    16,
-		nGenThorough: 100,
+		nGenThorough: 60,
 		prefixStep:   map[string]int{"quick": 9, "thorough": 2},
 		tokStep:      map[string]int{"quick": 11, "thorough": 3},
 	})
